@@ -19,7 +19,7 @@ def run(tier, seed):
     golden = json.load(open(os.path.join(VERIF, "ref", "golden_cbor.json")))
     acc = Acc()
     ncomp, nrat, bits = (60000, 20000, 2000) if tier == "quick" else (3000000, 600000, 4000)
-    for kind in (("dbg",) if tier == "quick" else ("dbg", "rel")):
+    for kind in ("dbg", "rel"):
         with Driver(bins[kind]) as d:
             # (1) units
             ids = {}
